@@ -115,6 +115,18 @@ impl PhysicalOperator for UnionExec {
             .then(|(input, p)| async move { input.execute(p).await })
             .try_flatten();
 
+        // Every branch's batches are reported under the union's schema (the
+        // first branch's column names), not under their own branch's names.
+        let schema = self.schema.clone();
+        let chained = chained.map_ok(move |b| {
+            if b.schema() != schema && b.num_columns() == schema.fields().len() {
+                arrow::record_batch::RecordBatch::try_new(schema.clone(), b.columns().to_vec())
+                    .unwrap_or(b)
+            } else {
+                b
+            }
+        });
+
         Ok(Box::pin(chained))
     }
 }
